@@ -731,7 +731,7 @@ func ParseVarDeclareStmt(p *ParserZH) *syntax.VarDeclareStmt {
 	// if colon exists -> parse comma list by block
 	// if colon not exists -> parse comma list inline
 	if match, _ := p.tryConsume(TypeFuncCall); match {
-		expected, blockIndent := p.expectBlockIndent()
+		expected, blockIndent := p.expectBlockIndent(p.blockIndent)
 		if !expected {
 			panic(p.getInvalidSyntaxCurr())
 		}
@@ -836,7 +836,7 @@ func ParseWhileLoopStmt(p *ParserZH) *syntax.WhileLoopStmt {
 	// #2. parse colon
 	p.consume(TypeFuncCall)
 	// #3. parse block
-	expected, blockIndent := p.expectBlockIndent()
+	expected, blockIndent := p.expectBlockIndent(p.blockIndent)
 	if !expected {
 		panic(p.getInvalidSyntaxPeek())
 	}
@@ -948,7 +948,7 @@ func ParseBranchStmt(p *ParserZH) *syntax.BranchStmt {
 		p.consume(TypeFuncCall)
 
 		// #3. parse block statements
-		ok, blockIndent := p.expectBlockIndent()
+		ok, blockIndent := p.expectBlockIndent(mainIndent)
 		if !ok {
 			panic(p.getUnexpectedIndentPeek())
 		}
@@ -1017,7 +1017,7 @@ func parseFunctionBlock(p *ParserZH) (*syntax.ID, *syntax.ExecBlock) {
 	p.consume(TypeFuncDeclare)
 
 	// #3. parse block manually
-	ok, blockIndent := p.expectBlockIndent()
+	ok, blockIndent := p.expectBlockIndent(p.blockIndent)
 	if !ok {
 		panic(p.getUnexpectedIndentPeek())
 	}
@@ -1187,7 +1187,7 @@ func parseIteratorStmtRest(p *ParserZH, idList []*syntax.ID) *syntax.IterateStmt
 	p.consume(TypeFuncCall)
 
 	// 3. parse iterate block
-	expected, blockIndent := p.expectBlockIndent()
+	expected, blockIndent := p.expectBlockIndent(p.blockIndent)
 	if !expected {
 		panic(p.getInvalidSyntaxPeek())
 	}
@@ -1257,7 +1257,7 @@ func ParseCatchErrorStmt(p *ParserZH) *syntax.CatchBlockPair {
 	p.consume(TypeFuncCall)
 
 	// #3. parse block manually
-	ok, newIndent := p.expectBlockIndent()
+	ok, newIndent := p.expectBlockIndent(p.blockIndent)
 	if !ok {
 		panic(p.getUnexpectedIndentPeek())
 	}
@@ -1342,7 +1342,7 @@ func ParseClassDeclareStmt(p *ParserZH) *syntax.ClassDeclareStmt {
 	// #2. parse colon
 	p.consume(TypeFuncCall)
 	// #3. parse block
-	expected, blockIndent := p.expectBlockIndent()
+	expected, blockIndent := p.expectBlockIndent(p.blockIndent)
 	if !expected {
 		panic(p.getInvalidSyntaxPeek())
 	}
@@ -1445,6 +1445,7 @@ func parsePauseCommaList(p *ParserZH, consumer consumerFunc) {
 
 func parseItemListBlock(p *ParserZH, blockIndent int, consumer func()) {
 	for (p.peek().Type != TypeEOF) && p.getPeekIndent() == blockIndent {
+		p.blockIndent = blockIndent
 		consumer()
 	}
 }
